@@ -102,7 +102,6 @@ func VerifC01Rev(a, b string) int {
 	return 0
 }
 
-
 // VerifSpecCmp exposes the reference comparison (for validating the SMT formulation of the same algorithm).
 func VerifSpecCmp(a, b string) int { return specCmp(a, b) }
 
@@ -169,7 +168,6 @@ func VerifC01Parsed(a, b string, want int) int {
 	}
 	return 0
 }
-
 
 // ---------------------------------------------------------------- C03
 
@@ -273,7 +271,6 @@ func VerifC03Reject(s string) int {
 	return 0
 }
 
-
 // ---------------------------------------------------------------- C02
 
 // VerifSpecCompare exposes the reference order on whole versions (used by the dependency harness as well).
@@ -357,3 +354,25 @@ var verifFuncs = map[string]interface{}{
 	"VerifC03Grammar": VerifC03Grammar,
 	"VerifC03Reject":  VerifC03Reject,
 }
+
+// ---------------------------------------------------------------- C18
+
+// VerifC18Version: the parser returns (no panic, no hang) and the outcome depends only on the input.
+func VerifC18Version(s string) int {
+	v1, e1 := Parse(s)
+	v2, e2 := Parse(s)
+	if (e1 == nil) != (e2 == nil) {
+		return 1
+	}
+	if e1 == nil && !eqVersion(v1, v2) {
+		return 2
+	}
+	var u Version
+	e3 := u.UnmarshalText([]byte(s))
+	if (e3 == nil) != (e1 == nil) {
+		return 3
+	}
+	return 0
+}
+
+func init() { verifFuncs["VerifC18Version"] = VerifC18Version }
